@@ -135,6 +135,7 @@ def enumerate_cuts(circuit: str, cut_size: int, cut_limit: int, fanin_limit: int
         names.sort()  # std::map over labels
     out = {n: [[name_of[i] for i in cut] for cut in cuts[n]] for n in names}
     c.stats.probes.bump(f'cuts:{pers}')
+    c.cuts_count = len({tuple(cut) for cs in out.values() for cut in cs})
     return out
 
 
